@@ -1,323 +1,6 @@
-// C04 correspondence harness: hostile layer bytes / TOCs / chunk tables against the real
-// estargz, zstdchunked, externaltoc, metadata/memory and fs/reader packages.
-//
-// Every case is executed in a CHILD process (this binary re-executed with -child): recoverable panics are caught
-// there with recover(), fatal errors (stack overflow, out of memory, a panic in a goroutine of the implementation)
-// kill the child and are classified by the parent from the exit status / stderr; a watchdog kills a child that does
-// not answer (hang). Outcome classes: ok | error | panic | stackoverflow | timeout | oom | crash.
-//
-// The model-free oracle of the property: the class must be ok or error. The Coq model (Model/Hostile.v) is
-// evaluated on the same input and must predict the same class and the same observable values.
+// C04 correspondence harness (memory metadata store, estargz, fs/reader): see verif/harness/c04.
 package main
 
-import (
-	"bufio"
-	"bytes"
-	"encoding/json"
-	"fmt"
-	"io"
-	"os"
-	"os/exec"
-	"runtime"
-	"runtime/debug"
-	"strings"
-	"syscall"
-	"time"
+import "verif/harness/c04"
 
-	"verif/harness/hx"
-)
-
-// ---- case ----
-
-type Ent struct {
-	Name        string `json:"name"`
-	Type        string `json:"type"`
-	Link        string `json:"link,omitempty"`
-	Size        int64  `json:"size,omitempty"`
-	Offset      int64  `json:"offset,omitempty"`
-	ChunkOffset int64  `json:"co,omitempty"`
-	ChunkSize   int64  `json:"cs,omitempty"`
-	InnerOffset int64  `json:"io,omitempty"`
-	NoDigest    bool   `json:"nodigest,omitempty"`
-}
-
-type Chunk struct {
-	Off  int64 `json:"off"`
-	Size int64 `json:"size"`
-}
-
-type Case struct {
-	Kind string `json:"kind"` // footer | open | tree | read
-	// footer
-	Dec string `json:"dec,omitempty"` // gzip | legacy | zstd | ext
-	P   []byte `json:"p,omitempty"`
-	// open
-	Blob   []byte `json:"blob,omitempty"`
-	Ext    bool   `json:"ext,omitempty"`    // register zstd:chunked and external-TOC decompressors (as the snapshotter does)
-	TocOff int64  `json:"tocoff,omitempty"` // WithTOCOffset
-	// tree: Ops = TOC entries; read: Ops2 = chunk table
-	Ops    []Ent   `json:"ops,omitempty"`
-	Chunks []Chunk `json:"chunks,omitempty"`
-	Off    int64   `json:"off,omitempty"`
-	Len    int     `json:"len,omitempty"`
-	Fsize  int64   `json:"fsize,omitempty"`
-	Hits   []bool  `json:"hits,omitempty"`
-}
-
-// Obs is what the implementation did.
-type Obs struct {
-	Class string   `json:"class"`
-	Vals  []int64  `json:"vals,omitempty"`
-	List  []string `json:"list,omitempty"`
-	Msg   string   `json:"msg,omitempty"`
-	// Restart: goroutines of the implementation were still running when the case was answered
-	Restart bool `json:"restart,omitempty"`
-}
-
-func okClass(c string) bool { return c == "ok" || c == "error" }
-
-// ---- child side ----
-
-func childMain() {
-	debug.SetMaxStack(48 << 20)
-	// address-space limit: a hostile size must end in an error, not in the OOM killer taking the harness down
-	lim := syscall.Rlimit{Cur: 6 << 30, Max: 6 << 30}
-	_ = syscall.Setrlimit(syscall.RLIMIT_AS, &lim)
-	in := bufio.NewReaderSize(os.Stdin, 1<<20)
-	out := bufio.NewWriter(os.Stdout)
-	for {
-		line, err := in.ReadBytes('\n')
-		if len(line) > 0 {
-			var c Case
-			if e := json.Unmarshal(line, &c); e != nil {
-				fmt.Fprintln(os.Stderr, "child: bad case:", e)
-				os.Exit(3)
-			}
-			base := runtime.NumGoroutine()
-			o := safeExec(c)
-			// goroutines started by the implementation (prefetch) must have ended - or crashed the process - before this
-			// case is answered; otherwise the next case gets a fresh child
-			for i := 0; i < 100 && runtime.NumGoroutine() > base; i++ {
-				time.Sleep(5 * time.Millisecond)
-			}
-			if runtime.NumGoroutine() > base {
-				o.Restart = true
-			}
-			b, _ := json.Marshal(o)
-			out.Write(b)
-			out.WriteByte('\n')
-			out.Flush()
-		}
-		if err != nil {
-			return
-		}
-	}
-}
-
-func safeExec(c Case) (o Obs) {
-	defer func() {
-		if r := recover(); r != nil {
-			o = Obs{Class: "panic", Msg: fmt.Sprint(r)}
-		}
-	}()
-	return execCase(c)
-}
-
-func execCase(c Case) Obs {
-	switch c.Kind {
-	case "footer":
-		return execFooter(c)
-	case "open":
-		return execOpen(c)
-	case "tree":
-		return execTree(c)
-	case "read":
-		return execRead(c)
-	}
-	return Obs{Class: "error", Msg: "unknown kind"}
-}
-
-// ---- parent side: child pool ----
-
-type child struct {
-	cmd    *exec.Cmd
-	stdin  io.WriteCloser
-	lines  chan []byte
-	stderr *bytes.Buffer
-}
-
-func startChild() *child {
-	cmd := exec.Command(os.Args[0], "-child")
-	cmd.Env = append(os.Environ(), "GOTRACEBACK=single")
-	stdin, _ := cmd.StdinPipe()
-	stdout, _ := cmd.StdoutPipe()
-	eb := &bytes.Buffer{}
-	cmd.Stderr = &capWriter{b: eb, max: 1 << 16}
-	if err := cmd.Start(); err != nil {
-		panic(err)
-	}
-	ch := &child{cmd: cmd, stdin: stdin, lines: make(chan []byte, 4), stderr: eb}
-	go func() {
-		r := bufio.NewReaderSize(stdout, 1<<20)
-		for {
-			l, err := r.ReadBytes('\n')
-			if len(l) > 0 && l[len(l)-1] == '\n' {
-				ch.lines <- l
-			}
-			if err != nil {
-				close(ch.lines)
-				return
-			}
-		}
-	}()
-	return ch
-}
-
-// capWriter keeps the first max bytes (the head of a crash report names the cause).
-type capWriter struct {
-	b   *bytes.Buffer
-	max int
-}
-
-func (w *capWriter) Write(p []byte) (int, error) {
-	if room := w.max - w.b.Len(); room > 0 {
-		if len(p) > room {
-			w.b.Write(p[:room])
-		} else {
-			w.b.Write(p)
-		}
-	}
-	return len(p), nil
-}
-
-func (ch *child) kill() {
-	ch.stdin.Close()
-	ch.cmd.Process.Kill()
-	ch.cmd.Wait()
-}
-
-var theChild *child
-var watchdog = 8 * time.Second
-
-// runIsolated executes one case in the child process and classifies the outcome.
-func runIsolated(c Case) Obs {
-	if theChild == nil {
-		theChild = startChild()
-	}
-	ch := theChild
-	b, _ := json.Marshal(c)
-	b = append(b, '\n')
-	if _, err := ch.stdin.Write(b); err != nil {
-		ch.kill()
-		theChild = nil
-		return Obs{Class: "crash", Msg: "child not accepting input: " + err.Error()}
-	}
-	select {
-	case l, ok := <-ch.lines:
-		if ok {
-			var o Obs
-			if err := json.Unmarshal(l, &o); err != nil {
-				return Obs{Class: "crash", Msg: "bad child output"}
-			}
-			if o.Class == "panic" || o.Restart {
-				// goroutines of a panicked call / of the prefetch may still run: a fresh child for the next case
-				ch.kill()
-				theChild = nil
-			}
-			return o
-		}
-		// child died while running this case
-		ch.cmd.Wait()
-		msg := ch.stderr.String()
-		theChild = nil
-		return Obs{Class: classify(msg), Msg: head(msg)}
-	case <-time.After(watchdog):
-		ch.kill()
-		theChild = nil
-		return Obs{Class: "timeout", Msg: fmt.Sprintf("no answer within %v", watchdog)}
-	}
-}
-
-func classify(stderr string) string {
-	switch {
-	case strings.Contains(stderr, "stack overflow") || strings.Contains(stderr, "goroutine stack exceeds"):
-		return "stackoverflow"
-	case strings.Contains(stderr, "out of memory") || strings.Contains(stderr, "cannot allocate memory"):
-		return "oom"
-	case strings.Contains(stderr, "all goroutines are asleep"):
-		return "timeout"
-	case strings.Contains(stderr, "panic:"):
-		return "panic"
-	}
-	return "crash"
-}
-
-func head(s string) string {
-	ls := strings.Split(s, "\n")
-	if len(ls) > 6 {
-		ls = ls[:6]
-	}
-	s = strings.Join(ls, " | ")
-	if len(s) > 400 {
-		s = s[:400]
-	}
-	return s
-}
-
-// ---- main ----
-
-func main() {
-	if len(os.Args) > 1 && os.Args[1] == "-child" {
-		childMain()
-		return
-	}
-	ctx := hx.Start()
-	if ctx.Tier == "thorough" {
-		watchdog = 15 * time.Second
-	}
-	emit := func(c Case) {
-		o := runIsolated(c)
-		ctx.Count("kind." + c.Kind)
-		ctx.Count("class." + o.Class)
-		ctx.Count(c.Kind + "." + o.Class)
-		term, key, nontrivial := coqCase(ctx, c, o)
-		id := ctx.Case(term, c, key, nontrivial)
-		if !okClass(o.Class) {
-			if (c.Kind == "read" || c.Kind == "tree") && hugeChunk(c) && (o.Class == "panic" || o.Class == "oom") &&
-				(strings.Contains(o.Msg, "too large") || strings.Contains(o.Msg, "out of memory") || strings.Contains(o.Msg, "out of range")) {
-				// known: the temporary buffer for a chunk is allocated from the TOC's chunk size alone
-				ctx.Count(c.Kind + ".huge-chunk-alloc")
-				ctx.Finding(id, "chunk-buffer-alloc", "read/prefetch allocates a buffer of the TOC-declared chunk size; a chunk size beyond memory crashes the daemon", o)
-			} else {
-				ctx.Violation(id, fmt.Sprintf("%s case ends in %s (must be ok or error)", c.Kind, o.Class), o)
-			}
-		} else if strings.HasPrefix(o.Msg, "WRONG") {
-			ctx.Violation(id, "read result: "+o.Msg, o)
-		} else if ps := treeProblems(o); len(ps) > 0 {
-			ctx.Violation(id, "metadata walk inconsistent: "+ps[0], o)
-		}
-	}
-	if ctx.Replay != "" {
-		var c Case
-		ctx.LoadReplay(&c)
-		emit(c)
-		if theChild != nil {
-			theChild.kill()
-		}
-		ctx.Finish()
-		return
-	}
-	cs := corpus()
-	for _, c := range cs {
-		emit(c)
-	}
-	r := hx.NewRng(ctx.Seed)
-	// the corpus and the deterministic sweeps run every time; -n counts the random cases after them
-	for i := 0; i < ctx.N; i++ {
-		emit(gen(r.Fork(), i))
-	}
-	if theChild != nil {
-		theChild.kill()
-	}
-	ctx.Finish()
-}
+func main() { c04.Main(c04.Config{}) }
